@@ -115,7 +115,7 @@ pub struct McinEntry {
     /// Absolute file offset to MCNK chunk
     pub offset: u32,
 
-    /// Size of MCNK chunk in bytes
+    /// Size of MCNK chunk in bytes (including its 8-byte chunk header)
     pub size: u32,
 
     /// Flags (rarely used, usually 0)
